@@ -56,9 +56,26 @@ def renderer_selftest():
     return True
 
 
+class ReadOnly(object):
+    """a stream that can only be read (no seek / tell), like a pipe"""
+
+    def __init__(self, text):
+        self._s = io.StringIO(text)
+
+    def read(self, n=-1):
+        return self._s.read(n)
+
+
+def positioned(text):
+    s = io.StringIO('DTSTART:' + text)
+    s.read(8)
+    return s
+
+
 def as_inputs(text):
+    # (a stream is read from where it stands: a consumed prefix is not part of the text)
     return [('str', text), ('bytes', text.encode('ascii')), ('stream', io.StringIO(text)),
-            ('bytestream', io.BytesIO(text.encode('ascii')))]
+            ('bytestream', io.BytesIO(text.encode('ascii'))), ('read-only stream', ReadOnly(text)), ('stream after a consumed prefix', positioned(text))]
 
 
 def call(f, arg):
